@@ -14,6 +14,11 @@ def run(ctx):
     else:
         ctx.pipe([h, "1500", "24", "40"], "grid", label="grid-small")
         ctx.pipe([h, "60", "33", "1024"], "grid", label="grid-large-nt")
+    if any(b[0].startswith("harness grid") for b in ctx.broken):
+        # the harness died inside the library (an assert of /repo fired, or a crash): search for the concrete query with the
+        # assertions compiled out, so that the wrong value reaches the comparison instead of aborting the process
+        h2 = ctx.build_harness("h_grid", libs=("PolarGrid",), extra=("-DNDEBUG",), out_name="h_grid_ndebug")
+        ctx.pipe([h2, "300", "20", "28"], "grid", label="grid-ndebug-search")
     ctx.assumptions += ["nr*ntheta < 2^31 (the code stores node numbers in int)",
                         "the automatic split criterion is a floating-point predicate; the model treats it as an arbitrary "
                         "Boolean function (theorems) and re-evaluates it in IEEE double in the driver (correspondence)"]
